@@ -56,32 +56,40 @@ def rules(t):
     out.append(r)
 
     r = RuleResult("C05.a5", "host list check when secure -> Err(NotInHostList)", floor=1)
-    for br in t.find_callcond(h, r"Iterator::any$"):
-        s = Site(h, br["bb"], 0, h.blocks[br["bb"]]["term"]); r.site(s)
+    sec = [b for b in t.branches(h) if b["kind"] == "bool" and t.is_field(b["raw"], "secure")]
+    cl = [g for g in t.fns(r"^renetcode::server::NetcodeServer::handle_connection_request::\{closure")]
+    # "hit" edges: the token lists one of this server's public addresses
+    hits = []
+    for br in t.find_callcond(h, r"Iterator::any$|::any$"):
         o = br["raw"]
-        if not (t.mentions_call(o, r"PrivateConnectToken::decode$") and "server_addresses" in fmt(o)): r.bad("src", s, "host test does not iterate the token's addresses")
-        if not t.edge_returns_err(h, br["f_edge"], "NotInHostList"): r.bad("err-edge", s, "host-list miss does not return Err(NotInHostList)")
-        sec = [b for b in t.branches(h) if b["kind"] == "bool" and t.is_field(b["raw"], "secure")]
-        if not sec: r.bad("secure", s, "no branch on self.secure")
-        # on the secure path the insertion must be dominated by the hit edge: removing hit edge and the non-secure edge disconnects the site
-        else:
-            avoid = {br["t_edge"], sec[0]["f_edge"]}
-            reach = reachable_avoiding(h, 0, avoid)
-            if any(b in reach for b in grow_bbs): r.bad("dom", s, "pending insertion reachable on the secure path without a host-list hit")
-        # membership is decided by equality of whole socket addresses (ip AND port) against self.public_addresses
-        cl = [g for g in t.fns(r"^renetcode::server::NetcodeServer::handle_connection_request::\{closure")]
+        if t.mentions_call(o, r"PrivateConnectToken::decode$") and "server_addresses" in fmt(o): hits.append(br["t_edge"]); r.site(Site(h, br["bb"], 0, h.blocks[br["bb"]]["term"]), "any(..) over token addresses")
+    for br in t.find_callcond(h, r"<impl \[T\]>::contains$|slice.*::contains$|Vec.*::contains$"):
+        a = br["cond"][2]
+        if len(a) == 2 and "public_addresses" in fmt(a[0]) and "server_addresses" in fmt(a[1]) and t.mentions_call(a[1], r"PrivateConnectToken::decode$"):
+            hits.append(br["t_edge"]); r.site(Site(h, br["bb"], 0, h.blocks[br["bb"]]["term"]), "public_addresses.contains(token address)")
+    s0 = Site(h, sec[0]["bb"], 0, h.blocks[sec[0]["bb"]]["term"]) if sec else None
+    if not sec: r.bad("secure", None, "no branch on self.secure")
+    elif not hits: r.bad("src", s0, "no test of the token's server addresses against self.public_addresses")
+    else:
+        avoid = set(hits) | {sec[0]["f_edge"]}
+        reach = reachable_avoiding(h, 0, avoid)
+        if any(b in reach for b in grow_bbs): r.bad("dom", s0, "pending insertion reachable on the secure path without a host-list hit")
+        miss = reachable_avoiding(h, sec[0]["t_edge"][1], set(hits))
+        errs = [a_ for a_ in t.aggrs("renetcode::error::NetcodeError", "NotInHostList", h) if a_.bb in miss] or [a_ for a_ in t.sites(h) if a_.node["k"] == "assign" and "NotInHostList" in fmt(t.stored(a_)) and a_.bb in miss]
+        if not errs: r.bad("err-edge", s0, "host-list miss does not return Err(NotInHostList)")
+        # membership is decided by equality of whole socket addresses (ip AND port)
         cmp_sock = cmp_other = 0
-        for g in cl:
+        for g in [h] + cl:
             for c in t.sites(g):
                 n = c.node
                 if n["k"] != "call": continue
                 nm, sub = callee_name(n), n.get("substs") or ""
                 if method_of(nm) in ("contains", "eq", "ne") and ("PartialEq" in nm or "contains" in nm):
+                    involved = "public_addresses" in fmt(t.arg(c, 0)) or g is not h
+                    if not involved: continue
                     if "std::net::SocketAddr" in sub or "SocketAddr as" in nm or "SocketAddr::eq" in nm: cmp_sock += 1
                     elif "IpAddr" in sub or "IpAddr" in nm or "u16" in sub: cmp_other += 1
-        uses_public = any("public_addresses" in fmt(t.stored(t.closure_creator(g))) for g in cl if t.closure_creator(g) is not None) or any("public_addresses" in fmt(t.arg(c, 0)) for g in cl for c in t.sites(g) if c.node["k"] == "call" and c.node["args"])
-        if not uses_public: r.bad("host-list-src", s, "host-list test does not consult self.public_addresses")
-        if cmp_sock == 0 or cmp_other > 0: r.bad("host-list-eq", s, "host-list membership is not decided by equality of whole SocketAddr values (ip and port): a token issued for another port / instance on the same IP is accepted")
+        if cmp_sock == 0 or cmp_other > 0: r.bad("host-list-eq", s0, "host-list membership is not decided by equality of whole SocketAddr values (ip and port): a token issued for another port / instance on the same IP is accepted")
     out.append(r)
 
     r = RuleResult("C05.a6", "token-to-address binding: find_or_add_connect_token_entry(addr, mac of data) true-edge dominates insertion", floor=1)
@@ -128,13 +136,20 @@ def rules(t):
         r.site(s)
         # equality guards between challenge token fields and pending fields dominating the fill
         def guard(field):
-            for br, op, te, fe in t.find_cmp(p, lambda a: t.mentions_call(a, r"ChallengeToken::decode$") and fmt(a).rstrip(")").endswith(field), lambda b: t.mentions_field(b, "pending_clients") and fmt(b).rstrip(")").endswith(field), None):
-                good = fe if op == "Ne" else te if op == "Eq" else None
-                if good and t.edge_dominates(p, good, s.bb): return True
-            return False
-        id_tests = [c for c in t.calls(r"find_client_slot_by_id$", p) if p.dominates(c.bb, s.bb)]
+            is_chal = lambda a: t.mentions_call(a, r"ChallengeToken::decode$") and fmt(a).rstrip(")").endswith(field)
+            is_pend = lambda b: t.mentions_field(b, "pending_clients") and fmt(b).rstrip(")").endswith(field)
+            return any(t.edge_dominates(p, e, s.bb) for e, br in rel_edges(t, p, is_chal, is_pend, "Eq"))
+        # the "id already connected" test: one of the id lookup helpers, or an inline scan comparing client_id, dominating the fill
+        id_tests = [c for c in t.calls(r"find_client(_mut|_slot)?_by_id$|NetcodeServer::is_client_connected$", p) if p.dominates(c.bb, s.bb)]
+        if not id_tests:
+            for c in t.calls(r"Iterator::(any|position|find)$|::any$|::position$", p):
+                cl = [g for g in t.fns() if "{closure" in g.path and t.closure_creator(g) is not None and t.closure_creator(g).fn is p and fmt(t.arg(c, 1)).startswith(short(g.path)[:10])]
+                if p.dominates(c.bb, s.bb) and any("client_id" in fmt(g.origin_of_local(0)) or any("client_id" in fmt(br2["raw"]) for br2 in t.branches(g) if br2["kind"] == "bool") for g in t.fns() if g.path.startswith(p.path + "::{closure")): id_tests.append(c)
         if not id_tests: r.bad("no-id-test", s, "slot fill not dominated by an already-connected test"); continue
-        tested = t.arg(id_tests[0], 1)
+        tested = t.arg(id_tests[0], 1) if len(id_tests[0].node["args"]) > 1 else ("unknown",)
+        if method_of(callee_name(id_tests[0].node)) in ("any", "position", "find"):
+            cs = [t.closure_creator(g) for g in t.fns() if g.path.startswith(p.path + "::{closure") and t.closure_creator(g) is not None]
+            tested = ("closure-upvars", tuple(t.stored(c_) for c_ in cs if c_.fn is p))
         inserted_from_pending = True
         if t.mentions_call(tested, r"ChallengeToken::decode$") and not guard("client_id"):
             r.bad("id", s, "id tested for 'already connected' comes from the challenge token but the inserted connection's id comes from the pending session, and no equality guard relates them")
@@ -155,11 +170,18 @@ def rules(t):
     r = RuleResult("C05.e", "pending sessions are dropped once now_secs > expire", floor=1)
     u = t.fn("NetcodeServer::update")
     found = False
-    for br, op, te, fe in t.find_cmp(u, lambda a: t.mentions_field(a, "current_time"), lambda b: fmt(b).endswith("expire_timestamp"), None):
-        found = True; r.site(Site(u, br["bb"], 0, u.blocks[br["bb"]]["term"]), fmt(br["raw"])[:80])
-        if op != "Gt": r.bad("op", None, f"pending expiry test uses {op}, expected now > expire")
-        st = [s for s in t.stores(CONN, "state", u) if s.bb in t.region_from(u, te)]
-        if not st: r.bad("state", None, "expired pending session is not marked Disconnected")
+    for g in fn_and_closures(t, u):
+        is_now = lambda a, g=g: t.mentions_field(resolved(t, a, g), "current_time") and "as_secs" in fmt(resolved(t, a, g))
+        is_exp = lambda b: fmt(b).rstrip(")").endswith("expire_timestamp")
+        for e, br in rel_edges(t, g, is_now, is_exp, "Gt"):
+            found = True; r.site(Site(g, br["bb"], 0, g.blocks[br["bb"]]["term"]), fmt(br["raw"])[:80])
+            st = [s for s in t.stores(CONN, "state", g) if s.bb in t.region_from(g, e) and "Disconnected" in fmt(t.stored(s))]
+            if not st: r.bad("state", None, "expired pending session is not marked Disconnected")
+        # the boundary is pinned: a test with another boundary (>=) on the same operands is a violation
+        for rel in ("Ge",):
+            for e, br in rel_edges(t, g, is_now, is_exp, rel):
+                if not any(b2 is br for _, b2 in rel_edges(t, g, is_now, is_exp, "Gt")) and not any(b2 is br for _, b2 in rel_edges(t, g, is_now, is_exp, "Le")): r.bad("op", Site(g, br["bb"], 0, g.blocks[br["bb"]]["term"]), "pending expiry boundary changed (expected now_secs > expire_timestamp)")
+    if not found: r.bad("missing", None, "no `now_secs > expire_timestamp` test on pending sessions in update()")
     if not list(t.effects("pending_clients", {"retain"}, u)): r.bad("retain", None, "no retain() dropping disconnected pending sessions")
     out.append(r)
     out.append(shared.aad_rule(t, "C05.f", "token"))
@@ -176,7 +198,7 @@ def rules(t):
         for c in t.sites(g):
             n = c.node
             if n["k"] != "call" or method_of(callee_name(n)) not in ("eq", "ne") or len(n["args"]) != 2: continue
-            a0, a1 = fmt(t.arg(c, 0)), fmt(t.arg(c, 1))
+            a0, a1 = fmt(resolved(t, t.arg(c, 0), g)), fmt(resolved(t, t.arg(c, 1), g))
             if not (a0.endswith(".mac") or ".mac" in a0[-12:]) or not (a1.endswith(".mac") or ".mac" in a1[-12:]): continue
             found = True; r.site(c, "mac comparison")
             lp = innermost_loop(g, c.bb)
@@ -193,7 +215,7 @@ def rules(t):
             ok, w = must_pass(g, start, {pos(c)}, stops={(lp[0], 0)}, avoid_edges=avoid)
             if not ok: r.bad("mac-skipped", c, "an occupied entry can pass through the scan without being compared with the presented MAC: a token already used from another address is not recognised for that entry")
     if not found: r.bad("mac-missing", None, "no comparison of stored MAC and presented MAC found")
-    adr = [c for g in scope for c in t.sites(g) if c.node["k"] == "call" and method_of(callee_name(c.node)) in ("eq", "ne") and "address" in fmt(t.arg(c, 0))[-10:] and "address" in fmt(t.arg(c, 1))[-10:]]
+    adr = [c for g in scope for c in t.sites(g) if c.node["k"] == "call" and method_of(callee_name(c.node)) in ("eq", "ne") and len(c.node["args"]) == 2 and "address" in fmt(resolved(t, t.arg(c, 0), g))[-10:] and "address" in fmt(resolved(t, t.arg(c, 1), g))[-10:]]
     for c in adr: r.site(c, "address decision")
     if not adr: r.bad("addr-missing", None, "a MAC match is not decided by comparing the stored and the presenting address")
     out.append(r)
